@@ -407,6 +407,65 @@ func checkC14(r *core.Run) {
 			}
 		}
 	}
+	// typed values after a prefix: once the static text has entered the query or fragment (or follows a TrustedResourceURL
+	// prefix) no safehtml type is in its own context any more, so a typed value must come out like the same string
+	var typedProgs int64
+	for ci, cl := range c14Cells {
+		for _, pre := range []string{"/p?q=", "/p#f-", "/p?a&amp;b=", "https://o/p?q=", "/p/"} {
+			if !strings.ContainsAny(pre, "?#") && !cl.trurl {
+				continue
+			}
+			text := cl.open + cl.attr + "=\"" + pre + "{{$.P0}}\"" + cl.close
+			p, _ := tmplx.Prepare(text)
+			if p == nil {
+				continue
+			}
+			typedProgs++
+			for _, d := range []string{"/home&role=admin#top", "a b", "%41", "x?y=z", "a/b", ".."} {
+				plain := execOne(p, d, false)
+				for _, t := range safeTypes {
+					for ptr := 0; ptr < 2; ptr++ {
+						var v interface{} = t.mk(d)
+						if ptr == 1 {
+							v = ptrTo(v)
+						}
+						tv := execOne(p, v, false)
+						atomic.AddInt64(&execs, 1)
+						if tv.Kind == tmplx.OK && (plain.Kind != tmplx.OK || tv.Out != plain.Out) {
+							r.Witness("typed-value-after-prefix", c14Cells[ci].name+" "+t.name, text+"\x00"+d,
+								fmt.Sprintf("program %s: %s value %s renders %s, the same string renders %s (kind %v)", core.Q(text), t.name, core.Q(d), core.Q(tv.Out), core.Q(plain.Out), plain.Kind), nil)
+						}
+					}
+				}
+			}
+		}
+	}
+	// static text that must be rejected as a prefix stays rejectable when an action that may render nothing precedes it
+	var afterAction int64
+	for ci, cl := range c14Cells {
+		for _, pre := range []string{"java", "javascript", "h", "jav&#97;", "x%", "x&am", "a b", "javascript:", "data"} {
+			must, why := c14MustReject(pre)
+			if !must {
+				continue
+			}
+			for _, lead := range []string{"{{$.P1}}", "{{if $.C}}{{$.P1}}{{end}}", "{{range $.L}}{{.}}{{end}}", "{{with $.W}}{{.}}{{end}}", "{{$.P1}}{{$.P1}}"} {
+				text := cl.open + cl.attr + "=\"" + lead + pre + "{{$.P0}}\"" + cl.close
+				afterAction++
+				p, _ := tmplx.Prepare(text)
+				if p == nil {
+					continue
+				}
+				d := tmplx.Data{P0: "zz", P1: ""}
+				res := p.Exec(&d)
+				atomic.AddInt64(&execs, 1)
+				if res.Kind == tmplx.OK {
+					r.Witness("prefix-not-rejected", c14Cells[ci].name+" after-empty-action", text, fmt.Sprintf("program %s is accepted (output %s) although the static text %q %s and the action before it can render nothing", core.Q(text), core.Q(res.Out), pre, why), nil)
+				}
+			}
+		}
+	}
+	r.Set("prefix_after_action_programs", afterAction)
+	r.Set("typed_after_prefix_programs", typedProgs)
 	r.Set("loop_prefix_programs", loopProgs)
 	r.Set("conditional_prefix_programs", condProgs)
 	if r.Expired() {
